@@ -296,4 +296,9 @@ example : ∃ t, Tokener.new 3 1 = some t ∧
   refine ⟨_, rfl, ?_⟩
   decide
 
+
+/-- every source fact this property's model consumes was located in the current source by tools/extract (a fact that is not
+found is emitted with a placeholder value; this obligation then fails and the check uses the reference model) -/
+theorem source_facts_located_c04 : JsonC.Generated.factsFound_tok = true := by decide
+
 end JsonC.Tokener
